@@ -299,7 +299,7 @@ SPEC = {
              'evaluate / evaluate_full_circuit, and block extraction == attached circuit. Non-trivial: >=1 connector pair '
              'and both circuits have a non-input gate.'),
     'assumptions': ['reference composition model in props/c10.py written from the connect_circuit docstring'],
-    'subs': [Sub('compose', cases, check_compose, {'quick': 2500, 'thorough': 40000})],
+    'subs': [Sub('compose', cases, check_compose, {'quick': 2500, 'thorough': 200000})],
     'required_classes': {'compose': ['entry:connect_circuit', 'entry:connect_left', 'entry:connect_right',
                                      'entry:connect_inputs', 'entry:extend_default', 'entry:extend_explicit',
                                      'entry:add_circuit', 'right_to_internal_gate', 'right_repeated_attached_gate',
